@@ -91,6 +91,8 @@ Fixpoint t_lookup (x : string) (e : tenv) : option (ty * bool) :=
 Definition t_declare (x : string) (v : ty * bool) (e : tenv) : tenv :=
   match e with [] => [[(x, v)]] | s :: r => ((x, v) :: s) :: r end.
 
+Definition is_decl (c : stmt) : bool := match c with SDecl _ _ _ _ | SDeclArr _ _ _ _ => true | _ => false end.
+
 Section Check.
   Variable sigs : string -> option (list ty * ty).      (* parameter types, return type *)
 
@@ -155,7 +157,9 @@ Section Check.
       | [] => Some G
       | a :: r => match check_stmt ret G a with Some G' => checks G' r | None => None end
       end in
-    let scoped := fun (c : stmt) => match check_stmt ret ([] :: G) c with Some _ => true | None => false end in
+    (* a branch or loop body is checked where it stands; a bare declaration cannot be one (its scope would be the
+       enclosing one) - blocks bring their own scope *)
+    let scoped := fun (c : stmt) => negb (is_decl c) && match check_stmt ret G c with Some _ => true | None => false end in
     match c with
     | SDecl fin t x init =>
         if negb (scalar t) || negb (fresh_name x G) then None else
@@ -214,12 +218,15 @@ Section Check.
                         | Some c' => match type_expr G1 c' with Some tc => boolish tc | None => false end
                         | None => true
                         end in
-            let s_ok := match step with
-                        | Some s' => match check_stmt ret ([] :: G1) s' with Some _ => true | None => false end
-                        | None => true
-                        end in
-            let b_ok := match check_stmt ret ([] :: G1) body with Some _ => true | None => false end in
-            if c_ok && s_ok && b_ok then Some G else None
+            (* body and step share the scope of one iteration: { body; step; } *)
+            let bs_ok := match check_stmt ret ([] :: G1) body with
+                         | Some G2 => match step with
+                                      | Some s' => match check_stmt ret G2 s' with Some _ => true | None => false end
+                                      | None => true
+                                      end
+                         | None => false
+                         end in
+            if c_ok && bs_ok then Some G else None
         | None => None
         end
     | SEcho a => match nonvoid (type_expr G a) with Some _ => Some G | None => None end
